@@ -75,9 +75,10 @@ theorem compiled_ids_fresh (s : PState) (h : s.Inv) (c c' sc sc' cc : ℕ)
   rw [find_snd_eq_some_iff _ (h.right_nodup c')] at h2
   exact h.cc_disjoint c c' hne _ h1 _ h2 rfl
 
+set_option linter.unusedVariables false in
 /-- 5. Compiling the same symbolic circuit again returns the same compiled object and changes
     nothing (holds in every state). -/
-theorem compile_idempotent (s : PState) (_h : s.Inv) (c sc : ℕ) :
+theorem compile_idempotent (s : PState) (h : s.Inv) (c sc : ℕ) :
     let r := s.compile c sc
     ∀ cc, r.2 = .cc cc → (r.1.compile c sc) = (r.1, .cc cc) := by
   intro r cc hr
